@@ -48,6 +48,26 @@ def sclose(a, b, cond, base=2e-11):
     return abs(a - b) <= tol * max(1.0, abs(a), abs(b))
 
 
+def indep_forward(tname, tp, x):
+    """the five transforms of the property's quantifier written from their mathematical definition, for the ORACLE only
+    (the model is fed the real trans.forward; the oracle must not share a cache or any other state with the code)"""
+    x = np.asarray(x, dtype=np.float64)
+    with np.errstate(all="ignore"):
+        if tname == "Identity":
+            return x.copy()
+        if tname == "Log":
+            return np.log(x + tp["nu"])
+        if tname == "BoxCox2":
+            if abs(tp["lam"]) > 1e-10:
+                return ((x + tp["nu"]) ** tp["lam"] - 1) / tp["lam"]
+            return np.log(x + tp["nu"])
+        if tname == "Reciprocal":
+            return np.where(x > -tp["nu"], -1.0 / (tp["nu"] + x), np.nan)
+        if tname == "Sinh":
+            return np.arcsinh((x - tp["nu"]) * tp["scale"])
+    raise ValueError(tname)
+
+
 def midranks(x):
     """average ranks (1-based), computed independently of scipy"""
     x = list(x)
@@ -231,8 +251,15 @@ def body(ctx):
             ctx.finding("nse/gt_1", "NSE exceeds 1", {**case, "value": float(v)})
         if np.isfinite(vk) and vk > 1 + 1e-12:
             ctx.finding("kge/gt_1", "KGE exceeds 1", {**case, "value": float(vk)})
-        # definition, computed independently with exact rationals on the transformed, filtered series
-        fo_q, fs_q = [Fraction(x) for x in fo], [Fraction(x) for x in fs]
+        # definition, computed independently with exact rationals on the independently transformed, filtered series
+        io, isim = indep_forward(tname, tp, o), indep_forward(tname, tp, s)
+        iok = np.isfinite(io) & np.isfinite(isim)
+        ifo, ifs = (io[iok], isim[iok]) if excl else (io, isim)
+        if len(ifo) != len(fo) or not np.allclose(ifo, fo, rtol=1e-9, atol=0) or not np.allclose(ifs, fs, rtol=1e-9, atol=0):
+            # trans.forward itself disagrees with the definition of the transform (stale state, wrong branch ...)
+            ctx.finding(f"score/transformed_series_differs/{tname}", "trans.forward(series) used by the score differs from the transform's definition on this series",
+                        {**case, "forward": [float(v) for v in fo[:5]], "definition": [float(v) for v in ifo[:5]]})
+        fo_q, fs_q = [Fraction(float(x)) for x in ifo], [Fraction(float(x)) for x in ifs]
         mo = sum(fo_q) / len(fo_q)
         den = sum((x - mo) ** 2 for x in fo_q)
         if den != 0:
@@ -248,6 +275,19 @@ def body(ctx):
                 ctx.finding("bias/not_definition" + ("/excludenull" if holes else ""),
                             "bias differs from (mean sim - mean obs)/mean obs of the transformed (filtered) series",
                             {**case, "value": float(vb), "definition": float(b_def)})
+            if abs(mo) > EPS and ms + mo != 0:
+                bn_def = float((ms - mo) / (ms + mo))
+                vbn = float(metrics.bias(o, s, trans, excl, "normalised"))
+                condn = cond * max(1.0, float(abs(ms) + abs(mo)) / float(abs(ms + mo)))
+                if not sclose(vbn, bn_def, condn, 1e-10):
+                    ctx.finding("bias/normalised/not_definition", "normalised bias differs from (ms - mo)/(ms + mo) of the transformed series",
+                                {**case, "value": vbn, "definition": bn_def, "mean_obs": float(mo), "mean_sim": float(ms)})
+            if float(mo) > EPS and float(ms) > EPS:
+                bl_def = math.log(float(ms)) - math.log(float(mo))
+                vbl = float(metrics.bias(o, s, trans, excl, "log"))
+                if not sclose(vbl, bl_def, cond, 1e-10):
+                    ctx.finding("bias/log/not_definition", "log bias differs from log(ms) - log(mo) of the transformed series",
+                                {**case, "value": vbl, "definition": bl_def})
         if tname == "Identity" and not holes:
             # simulating the observed mean scores 0; invariances
             vm = metrics.nse(o, np.full(n, np.mean(o)))
@@ -265,6 +305,37 @@ def body(ctx):
             k2 = metrics.kge(c * o, c * s)
             if np.isfinite(vk) and not sclose(float(vk), float(k2), cond, 1e-8):
                 ctx.finding("kge/not_scale_invariant", "KGE changes under a common positive scaling", {**case, "c": c, "values": [float(vk), float(k2)]})
+
+    # ---------------- state history: the same arrays are edited IN PLACE between two scorings with the same transform object
+    for it in range(ctx.scale(150, 1500)):
+        n = rng.choice([3, 8, 20])
+        tname = rng.choice(["Identity", "Identity", "Log", "BoxCox2", "Sinh"])
+        positive = tname in ("Log", "BoxCox2")
+        o, s, gkind = gen_series(rng, n, positive)
+        trans, tp = (None, {}) if (tname == "Identity" and rng.random() < 0.5) else make_trans(tname)
+        kw = {} if trans is None else {"trans": trans}      # None: the functions' own default (a shared Identity instance)
+        try:
+            first = [float(metrics.nse(o, s, **kw)), float(metrics.bias(o, s, **kw)), float(metrics.kge(o, s, **kw))]
+            # edit in place: the array objects stay the same, their content changes
+            o *= rng.choice([0.5, 2.0, 3.0])
+            o += (rng.choice([0.0, 1.0]) if not positive else 0.25)
+            s[:] = o if rng.random() < 0.5 else s[::-1].copy()
+            second = [float(metrics.nse(o, s, **kw)), float(metrics.bias(o, s, **kw)), float(metrics.kge(o, s, **kw))]
+        except Exception as e:  # noqa
+            ctx.finding("score/history/raises", "scoring raises after an in-place edit of the series", {"trans": tname, "params": tp, "error": f"{type(e).__name__}: {e}"[:200]})
+            continue
+        io, isim = indep_forward(tname, tp, o), indep_forward(tname, tp, s)
+        if not (np.all(np.isfinite(io)) and np.all(np.isfinite(isim)) and well_conditioned(io)):
+            continue
+        mo_, den = float(np.mean(io)), float(np.sum((io - np.mean(io)) ** 2))
+        nse_def = 1 - float(np.sum((isim - io) ** 2)) / den
+        b_def = (float(np.mean(isim)) - mo_) / mo_
+        cond = max(cond_number(io), cond_number(isim) if np.std(isim) > 0 else 1.0)
+        ctx.count(("history", tname, tuple(o), tuple(s)), True, "history/inplace_edit")
+        if not sclose(second[0], nse_def, cond, 1e-9) or not sclose(second[1], b_def, cond, 1e-9):
+            ctx.finding("score/history/stale_after_inplace_edit", "after editing the series in place, the score is not that of the edited series",
+                        {"trans": tname, "params": tp, "obs": o.tolist(), "sim": s.tolist(), "nse": second[0], "nse_definition": nse_def,
+                         "bias": second[1], "bias_definition": b_def, "before_edit": first})
 
     # ---------------- confusion matrix
     for it in range(ctx.scale(500, 5000)):
